@@ -1,5 +1,6 @@
 import Cbor.Lemmas.SdSpec
 import Cbor.Model.StreamClient
+import Cbor.Props.C08
 import Cbor.Spec.HeadLemmas
 /-!
 # C09 — feeding a stream in fragments yields the same events as one-shot decoding
@@ -161,6 +162,49 @@ theorem C09_wait_bounds (src : Array UInt8) (p n : Nat) (hn : n < 2 ^ 64 - 1)
     refine ⟨by rw [h4]; omega, fun n' t l hone => ?_⟩
     have := decodeHead_need_le hspec hone
     rw [h4]; exact Nat.le_trans (Nat.min_le_left _ _) this
+
+/-- every token of the tokenisation came from a complete head: a string payload starts after at least one head byte -/
+theorem tokens_payload (src : Array UInt8) : ∀ (ft p : Nat) (tp : Tok × Nat), tp ∈ tokens src ft p →
+    ∀ o pl, tp.1.payload = some (o, pl) → 1 ≤ o
+  | 0, _, _, h => by simp [tokens] at h
+  | ft+1, p, tp, h => by
+    unfold tokens at h
+    cases hd : decodeHead (getA src p) (src.size - p) with
+    | ok t l =>
+      rw [hd] at h
+      rcases List.mem_cons.mp h with e | e
+      · subst e
+        intro o pl hp
+        exact ((decodeHead_ok hd).2.2 o pl hp).1
+      · exact tokens_payload src ft (p + l) tp e
+    | nedata n => rw [hd] at h; simp at h
+    | error => rw [hd] at h; simp at h
+
+/-- two event lists denoting the same tokens are the same list -/
+theorem matches_unique {es es' : List Event} {ts : List (Tok × Nat)}
+    (hp : ∀ tp ∈ ts, ∀ o pl, tp.1.payload = some (o, pl) → 1 ≤ o)
+    (h : Matches Denotes es ts) (h' : Matches Denotes es' ts) : es = es' := by
+  induction h generalizing es' with
+  | nil => cases h'; rfl
+  | cons hab _ ih =>
+    cases h' with
+    | cons hab' hrest =>
+      have e := Props.C08.tokMatch_inj hab hab' (hp _ (by simp))
+      subst e
+      rw [ih (fun tp htp => hp tp (by simp [htp])) hrest]
+
+/-- **Same callbacks, same arguments, same order**: any two ways of fragmenting the same stream give the client the
+identical event list — in particular any fragmentation gives the list one-shot decoding of the whole buffer gives. -/
+theorem C09_same_events (src : Array UInt8) (hsz : src.size < 2 ^ 64 - 1) (first first' : Nat) (arr arr' : List Nat)
+    (hsum : first + arr.sum = src.size) (hsum' : first' + arr'.sum = src.size) :
+    client src (2 * src.size + 1) 0 first arr = client src (2 * src.size + 1) 0 first' arr' :=
+  matches_unique (tokens_payload src _ 0) (C09_from_start src hsz first arr hsum) (C09_from_start src hsz first' arr' hsum')
+
+/-- one-shot decoding is the fragmentation in which everything is buffered from the start -/
+theorem C09_equals_one_shot (src : Array UInt8) (hsz : src.size < 2 ^ 64 - 1) (first : Nat) (arr : List Nat)
+    (hsum : first + arr.sum = src.size) :
+    client src (2 * src.size + 1) 0 first arr = client src (2 * src.size + 1) 0 src.size [] :=
+  C09_same_events src hsz first src.size arr [] hsum (by simp)
 
 /-! non-vacuity: byte-at-a-time delivery of `[1, "a", [2]]` yields the five events of its tokenisation -/
 example :
